@@ -10,7 +10,7 @@ import (
 )
 
 var profile = vh.ShimProfile{
-	Validities:      []string{"current", "current", "forever", "beforebig"},
+	Validities:      []string{"current", "current", "forever", "beforebig", "past", "past", "future"},
 	KeyIDClasses:    vh.AllKeyIDClasses,
 	Forward:         true,
 	Faults:          true,
